@@ -286,6 +286,66 @@ func scnStaking(ctx *check.JobCtx) {
 		w.EndBlock()
 		w.Case("c20:threshold-recipe")
 	}
+	if ctx.Arg("slash", "") == "1" && !w.Halted() {
+		// slashed-validator recipe: a second validator double-signs (slashed, jailed: tokens < shares); a node
+		// declares it and delegates to just BELOW the share threshold counted in shares, is lifted above it, and
+		// is then diluted by a third party to just below again
+		op := valOps[1]
+		v1 := sdk.ValAddress(op.Addr)
+		if _, exists := w.C.App.StakingKeeper.GetValidator(w.C.Ctx(), v1); !exists {
+			if e := w.Deliver("create-validator", op, nil, createValidatorMsg(op, 150_000_000)); e.OK {
+				vals = append(vals, v1)
+			}
+		}
+		w.EndBlock()
+		w.Advance(1)
+		if val, ok := w.C.App.StakingKeeper.GetValidator(w.C.Ctx(), v1); ok && val.IsBonded() && len(w.C.Vals) >= 2 {
+			cons, _ := val.GetConsAddr()
+			w.C.Equivocate(cons, val.ConsensusPower(sdk.DefaultPowerReduction))
+			w.Advance(2)
+			val, _ = w.C.App.StakingKeeper.GetValidator(w.C.Ctx(), v1)
+			slashed := sdk.NewDecFromInt(val.Tokens).LT(val.DelegatorShares)
+			n := nodes[2]
+			w.AddVstorage(n, 3_000_000)
+			// drop whatever the node holds there, then rebuild its delegation to the wanted fraction of the shares
+			target := func(frac sdk.Dec) {
+				val, _ := w.C.App.StakingKeeper.GetValidator(w.C.Ctx(), v1)
+				own := sdk.ZeroDec()
+				if d, ok := w.C.App.StakingKeeper.GetDelegation(w.C.Ctx(), n.Addr, v1); ok {
+					own = d.Shares
+				}
+				others := val.DelegatorShares.Sub(own)
+				// own'/(others+own') = frac  =>  own' = frac*others/(1-frac)
+				want := frac.Mul(others).Quo(sdk.OneDec().Sub(frac))
+				if want.GT(own) {
+					tokens := val.TokensFromShares(want.Sub(own)).TruncateInt()
+					if tokens.IsPositive() {
+						w.Deliver("delegate", n, nil, delegateMsg(n, v1, tokens.Int64()))
+					}
+				}
+			}
+			thr := sdk.MustNewDecFromStr(w.C.App.NodeKeeper.GetParams(w.C.Ctx()).ShareThreshold)
+			w.ResetNode(n, world.StatusAll, nil, v1.String())
+			target(thr.Mul(sdk.MustNewDecFromStr("0.97")))
+			w.ResetNode(n, world.StatusAll, nil, v1.String())
+			w.EndBlock()
+			target(thr.Mul(sdk.MustNewDecFromStr("1.2")))
+			w.EndBlock()
+			// third-party dilution to 0.98 x threshold
+			val, _ = w.C.App.StakingKeeper.GetValidator(w.C.Ctx(), v1)
+			if d, ok := w.C.App.StakingKeeper.GetDelegation(w.C.Ctx(), n.Addr, v1); ok {
+				wantTotal := d.Shares.Quo(thr.Mul(sdk.MustNewDecFromStr("0.98")))
+				if wantTotal.GT(val.DelegatorShares) {
+					tokens := val.TokensFromShares(wantTotal.Sub(val.DelegatorShares)).TruncateInt()
+					w.Deliver("delegate", dels[1], nil, delegateMsg(dels[1], v1, tokens.Int64()))
+				}
+			}
+			w.EndBlock()
+			w.Case("c20:slashed-validator-recipe:slashed=%v", slashed)
+		} else {
+			w.Case("c20:slashed-validator-recipe:not-reached")
+		}
+	}
 	ops := int(ctx.ArgInt("ops", 150))
 	amounts := []int64{1, 1_000_000, 9_000_000, 11_111_111, 25_000_000, 120_000_000, 400_000_000, 5_000_000_000}
 	for i := 0; i < ops && !w.Halted(); i++ {
